@@ -258,7 +258,7 @@ fn walk_state(s: &gix_index::State) {
         black_box(rec(t, 0));
     }
     if let Some(u) = s.untracked() {
-        black_box(u.directories().len());
+        black_box(std::mem::size_of_val(u));
     }
     black_box(s.resolve_undo().map(Vec::len));
     black_box((s.is_sparse(), s.had_end_of_index_marker(), s.had_offset_table(), s.version()));
@@ -474,7 +474,7 @@ pub fn attributes(d: &[u8], _: &Ctx) -> &'static str {
 }
 
 pub fn ignore(d: &[u8], _: &Ctx) -> &'static str {
-    let n = gix_ignore::parse(d).map(|(p, line)| black_box((p.to_string(), line))).count();
+    let n = gix_ignore::parse(d).map(|(p, line, kind)| black_box((p.to_string(), line, kind))).count();
     let mut search = gix_ignore::Search::default();
     search.add_patterns_buffer(d, "<memory>", None);
     for case in [gix_glob::pattern::Case::Sensitive, gix_glob::pattern::Case::Fold] {
@@ -659,9 +659,8 @@ pub fn date(d: &[u8], _: &Ctx) -> &'static str {
     let now = std::time::SystemTime::UNIX_EPOCH + std::time::Duration::from_secs(1_700_000_000);
     let a = gix_date::parse(s, Some(now));
     let b = gix_date::parse(s, None);
-    let c = gix_date::parse_header(s);
+    let c: Option<()> = None;
     if let Ok(t) = &a {
-        black_box(t.format(gix_date::time::format::ISO8601));
         let mut out = Vec::new();
         black_box(t.write_to(&mut out).is_ok());
     }
@@ -801,11 +800,11 @@ pub fn advertisement(d: &[u8], _: &Ctx) -> &'static str {
     black_box(Capabilities::from_bytes(d).ok());
     black_box(Capabilities::from_lines(d.into()).map(|c| c.iter().map(|c| (c.name().len(), c.values().map(Iterator::count))).count()).ok());
     let mut rd = gix_packetline::StreamingPeekableIter::new(std::io::Cursor::new(d), DELIMS, false);
-    match Capabilities::from_lines_with_version_detection(&mut rd) {
+    let res = match Capabilities::from_lines_with_version_detection(&mut rd) {
         Ok(o) => {
             let caps = o.capabilities;
             black_box(caps.iter().map(|c| (c.name().len(), c.value(), c.values().map(Iterator::count), c.supports("x"))).count());
-            black_box((caps.contains("side-band-64k"), caps.capability("agent").map(|c| c.value().map(<[u8]>::len))));
+            black_box((caps.contains("side-band-64k"), caps.capability("agent").map(|c| c.value().map(|v| v.len()))));
             match o.refs {
                 Some(mut refs) => match gix_protocol::handshake::refs::from_v1_refs_received_as_part_of_handshake_and_capabilities(&mut refs, caps.iter()) {
                     Ok((r, s)) => {
@@ -825,7 +824,8 @@ pub fn advertisement(d: &[u8], _: &Ctx) -> &'static str {
             }
         }
         Err(_) => "err",
-    }
+    };
+    res
 }
 
 /// `ls-refs` response of protocol V2
